@@ -15,6 +15,10 @@
 //!   jz  [n, pseed, ext, shards, via, per, t, p]      JSONL to `*.jsonl.<ext>` (codec by extension): write_jsonl_vec and
 //!                                    write_jsonl_par, each file read back whole and streamed in both modes
 //!   cz  [n, pseed, ext, h, shards, via, per, t, p]   the same for CSV
+//!   ow  [fmt, ext, h, w1, w2, n1, n2, pseed, shards]  overwrite: n1 records (ids 1000..) written with writer w1, then n2
+//!                                    records (ids 0..) written to the SAME path with writer w2; the file must hold
+//!                                    exactly the second data set. fmt 0 jsonl / 1 csv / 2 parquet; ext "" or a codec;
+//!                                    writers: 0 write_*_vec, 1 PCollection::write_*, 2 write_*_par, 3 PCollection::write_*_par
 //!   jb  [hi, lo]                     the finite f64 with bit pattern hi * 2^32 + lo through JSONL, CSV, Parquet
 use ibv::{Emitter, SplitMix64, Tier, drive, ok};
 use ironbeam::io::csv::build_csv_shards;
@@ -192,6 +196,7 @@ fn valid(kind: &str, input: &Value) -> bool {
         "jb" => "uu",
         "jz" => "uusouuuu",
         "cz" => "uusbouuuu",
+        "ow" => "usbuuuuuo",
         _ => return false,
     };
     let Some(arr) = input.as_array() else { return false };
@@ -242,6 +247,17 @@ fn valid(kind: &str, input: &Value) -> bool {
                             })
                     })
                 })
+        }
+        "ow" => {
+            let (fmt, w1, w2) = (arr[0].as_u64().unwrap(), arr[3].as_u64().unwrap(), arr[4].as_u64().unwrap());
+            let ext = arr[1].as_str().unwrap();
+            fmt <= 2
+                && w1 <= 3
+                && w2 <= 3
+                && (fmt < 2 || (w1 <= 1 && w2 <= 1 && ext.is_empty()))
+                && ext.bytes().all(|b| b.is_ascii_alphanumeric())
+                && arr[5].as_u64().unwrap() <= 10_000
+                && arr[6].as_u64().unwrap() <= 10_000
         }
         "jf" => arr[0].as_i64().unwrap().abs() < (1 << 53),
         "jb" => arr.iter().all(|v| v.as_u64().unwrap() < (1 << 32)),
@@ -516,6 +532,60 @@ fn run(kind: &str, input: &Value) -> Value {
                 }
             }
             ok(json!([ca, cb, outs, pay.get(), leftover]))
+        }
+        "ow" => {
+            let (fmt, ext, h) = (us(&input[0]), input[1].as_str().unwrap(), input[2].as_bool().unwrap());
+            let (w1, w2) = (us(&input[3]), us(&input[4]));
+            let (n1, n2, pseed) = (input[5].as_u64().unwrap(), input[6].as_u64().unwrap(), input[7].as_u64().unwrap());
+            let shards = opt_usize(&input[8]);
+            let stem = ["jsonl", "csv", "parquet"][fmt];
+            let path = if ext.is_empty() { sc.p(&format!("out.{stem}")) } else { sc.p(&format!("out.{stem}.{ext}")) };
+            let write = |w: usize, data: Vec<Rec>| -> usize {
+                let pc = || from_vec(&Pipeline::default(), data.clone());
+                match (fmt, w) {
+                    (0, 0) => ironbeam::helpers::jsonl::write_jsonl_vec(&path, &data).unwrap(),
+                    (0, 1) => pc().write_jsonl(&path).unwrap(),
+                    (0, 2) => write_jsonl_par(&path, &data, shards).unwrap(),
+                    (0, _) => pc().write_jsonl_par(&path, shards).unwrap(),
+                    (1, 0) => write_csv_vec(&path, h, &data).unwrap(),
+                    (1, 1) => pc().write_csv(&path, h).unwrap(),
+                    (1, 2) => write_csv_par(&path, &data, shards, h).unwrap(),
+                    (1, _) => pc().write_csv_par(&path, shards, h).unwrap(),
+                    (_, 0) => write_parquet_vec(&path, &data).unwrap(),
+                    (_, _) => pc().write_parquet(&path).unwrap(),
+                }
+            };
+            let c1 = write(w1, recs(pseed, 1000, n1));
+            let c2 = write(w2, recs(pseed, 0, n2));
+            let leftover = std::fs::read_dir(&sc.0).unwrap().count() as u64 - 1;
+            let pay = std::cell::Cell::new(true);
+            let show = |v: Vec<Rec>| {
+                let mut ok = true;
+                let ids = ids_of(&v, pseed, &mut ok);
+                if !ok {
+                    pay.set(false);
+                }
+                ids
+            };
+            let pl = Pipeline::default();
+            let outs = match fmt {
+                0 => vec![
+                    path_outcome(|| read_jsonl_vec::<Rec>(&path), &show),
+                    path_outcome(|| read_jsonl_streaming::<Rec>(&pl, &path, 2)?.collect_seq(), &show),
+                    path_outcome(|| read_jsonl_streaming::<Rec>(&pl, &path, 2)?.collect_par(Some(2), Some(3)), &show),
+                ],
+                1 => vec![
+                    path_outcome(|| read_csv_vec::<Rec>(&path, h), &show),
+                    path_outcome(|| read_csv_streaming::<Rec>(&pl, &path, h, 2)?.collect_seq(), &show),
+                    path_outcome(|| read_csv_streaming::<Rec>(&pl, &path, h, 2)?.collect_par(Some(2), Some(3)), &show),
+                ],
+                _ => vec![
+                    path_outcome(|| read_parquet_vec::<Rec>(&path), &show),
+                    path_outcome(|| read_parquet_streaming::<Rec>(&pl, &path, 1)?.collect_seq(), &show),
+                    path_outcome(|| read_parquet_streaming::<Rec>(&pl, &path, 1)?.collect_par(Some(2), Some(3)), &show),
+                ],
+            };
+            ok(json!([c1, c2, outs, pay.get(), leftover]))
         }
         _ => json!(["bad-kind"]),
     }
@@ -809,6 +879,45 @@ fn generate(seed: u64, tier: Tier, em: &mut Emitter) {
                     em.case("cz", json!([n, rng.below(1 << 20), ext, h, sh, cvia, per, t, p]), nt, &["codec", "csv-codec"]);
                     if thorough {
                         em.case("cz", json!([n, rng.below(1 << 20), ext, !h, sh, cvia, per, t, p]), nt, &["codec", "csv-codec"]);
+                    }
+                }
+            }
+        }
+    }
+    // 8. overwrite: the path already holds n1 records, then n2 records (n2 < n1 and n2 = 0 included)
+    //    are written to the SAME path with every writer; the file must hold exactly the second set
+    let oexts: &[&str] = if thorough { &["", "gz", "gzip", "zst", "bz2", "xz", "GZ"] } else { &["", "gz", "zst", "bz2", "xz"] };
+    for fmt in 0..3u64 {
+        for ext in oexts {
+            if fmt == 2 && !ext.is_empty() {
+                continue;
+            }
+            for w2 in 0..4u64 {
+                if fmt == 2 && w2 > 1 {
+                    continue;
+                }
+                for n1 in [0u64, 1, 5] {
+                    for n2 in [0u64, 1, 3, 7] {
+                        let mut shs: Vec<Value> = if w2 < 2 {
+                            vec![Value::Null]
+                        } else if n2 == 0 || thorough {
+                            vec![Value::Null, json!(0), json!(1), json!(2), json!(3), json!(n2), json!(n2 + 1), json!(1000)]
+                        } else {
+                            vec![Value::Null, json!(1), json!(2), json!(n2), json!(n2 + 1)]
+                        };
+                        shs.dedup();
+                        for sh in shs {
+                            // the CSV method passes `shards` on as a thread count: keep it small there
+                            if fmt == 1 && w2 == 3 && sh.as_u64().is_some_and(|s| s > 8) {
+                                continue;
+                            }
+                            let w1s: Vec<u64> = if fmt == 2 { vec![rng.below(2)] } else if thorough { vec![0, 2] } else { vec![*rng.pick(&[0, 2])] };
+                            for w1 in w1s {
+                                let h = rng.chance(1, 2);
+                                let nt = n1 > 0;
+                                em.case("ow", json!([fmt, ext, h, w1, w2, n1, n2, rng.below(1 << 20), sh]), nt, &["overwrite"]);
+                            }
+                        }
                     }
                 }
             }
